@@ -51,15 +51,18 @@ package checks
 //@   loop 2 invariant forall i int :: 0 <= i && i < iter1-1 ==> !selectsAlert(sel[i], name)
 //@   loop 2 invariant forall j int :: 0 <= j && j < iter ==> !alertMatcher(vs.LabelMatchers[j], name)
 
+// a selector selects the metric when it names it, as `name{...}` or as `{__name__="name", ...}`
+//@ spec func nameMatcher(m *labels.Matcher, name string) bool = m.Name == "__name__" && m.Type == labels.MatchEqual && m.Value == name
+//@ spec func selectsMetric(vs promParser.VectorSelector, name string) bool = vs.Name == name || (exists j int :: 0 <= j && j < len(vs.LabelMatchers) && nameMatcher(vs.LabelMatchers[j], name))
 //@ func RuleDependencyCheck.usesVector [C20]
 //@   ghost sel []promParser.VectorSelector
 //@   ghost parsed bool
 //@   after call HasVectorSelector set sel = result0
 //@   after call HasVectorSelector set parsed = true
-//@   ensures result != nil <==> parsed && (exists i int :: 0 <= i && i < len(sel) && sel[i].Name == name)
+//@   ensures result != nil <==> parsed && (exists i int :: 0 <= i && i < len(sel) && selectsMetric(sel[i], name))
 //@   ensures result != nil ==> result.kind == "recording" && result.metric == name && result.path == entry.Path.SymlinkTarget
 //@   loop 1 invariant 0 <= iter && iter <= len(sel) && parsed
-//@   loop 1 invariant forall i int :: 0 <= i && i < iter ==> sel[i].Name != name
+//@   loop 1 invariant forall i int :: 0 <= i && i < iter ==> !selectsMetric(sel[i], name)
 
 // Only entries that still exist at HEAD and parsed cleanly count as dependants or replacements.
 //@ func nonRemovedEntries [C20]
@@ -187,3 +190,9 @@ package checks
 //@ func LabelCheck.checkRecordingRule [C02]
 //@   requires entry.Rule.RecordingRule != nil
 //@   safe nil-deref:YamlMap nil-deref:Key
+
+//@ func hasNameMatcher [C20]
+//@   pure
+//@   ensures result <==> (exists j int :: 0 <= j && j < len(lms) && nameMatcher(lms[j], name))
+//@   loop 1 invariant 0 <= iter1 && iter1 <= len(lms)
+//@   loop 1 invariant forall j int :: 0 <= j && j < iter1 ==> !nameMatcher(lms[j], name)
